@@ -218,15 +218,17 @@ func (fr *Frame) intBinop(st *State, op token.Token, x, y Term, ta, tb, tr types
 	case token.SUB:
 		return cx.wrap(app(SInt, "-", x, y), tr, true)
 	case token.MUL:
-		return cx.wrapGeneral(app(SInt, "*", x, y), tr)
+		return cx.wrapGeneral(cx.mul(x, y), tr)
 	case token.QUO:
 		fr.mustHold(st, "div0", not(eq(y, intLit(0))), p)
+		fr.divFacts(x, y)
 		if isUnsigned(ta) {
 			return app(SInt, "div", x, y)
 		}
 		return cx.wrap(tdiv(x, y), tr, true)
 	case token.REM:
 		fr.mustHold(st, "div0", not(eq(y, intLit(0))), p)
+		fr.divFacts(x, y)
 		if isUnsigned(ta) {
 			return app(SInt, "mod", x, y)
 		}
@@ -381,4 +383,51 @@ func (fr *Frame) bvBinop(st *State, op token.Token, x, y Term, ta, tb, tr types.
 	}
 	ex.cx.unsup("bv binary %s", op)
 	return ex.cx.fresh("binop", x.Sort)
+}
+
+// divFacts (lemma L3): for a symbolic positive divisor the defining facts of
+// integer division are stated explicitly (they are consequences of the SMT
+// semantics of div/mod; stating them helps the nonlinear reasoning).
+func (fr *Frame) divFacts(x, y Term) {
+	if _, lit := litValue(y); lit {
+		return
+	}
+	cx := fr.ex.cx
+	q := cx.name("q", app(SInt, "div", x, y))
+	r := cx.name("m", app(SInt, "mod", x, y))
+	pos := and(app(SBool, ">", y, intLit(0)))
+	cx.assume(implies(pos, and(
+		eq(x, app(SInt, "+", cx.mul(y, q), r)),
+		app(SBool, "<=", intLit(0), r), app(SBool, "<", r, y),
+		implies(app(SBool, ">=", x, intLit(0)), app(SBool, ">=", q, intLit(0))))))
+}
+
+// mul builds a product; for a product of two non-literal terms it adds the
+// tautologies  a == c ==> a*b == c*b  (c = 0..64, both factors) so that a
+// factor known to be small is handled by case analysis in linear arithmetic.
+func (c *Ctx) mul(a, b Term) Term {
+	p := app(SInt, "*", a, b)
+	if _, ok := litValue(a); ok {
+		return p
+	}
+	if _, ok := litValue(b); ok {
+		return p
+	}
+	if strings.Contains(a.S, "!q") || strings.Contains(b.S, "!q") {
+		return p // bound variables: no ground hints
+	}
+	key := "mulhint:" + p.S
+	if c.declared[key] {
+		return p
+	}
+	c.declared[key] = true
+	a, b = c.name("f", a), c.name("f", b)
+	p = app(SInt, "*", a, b)
+	var hs []Term
+	for k := int64(0); k <= 64; k++ {
+		hs = append(hs, implies(eq(a, intLit(k)), eq(p, app(SInt, "*", intLit(k), b))))
+		hs = append(hs, implies(eq(b, intLit(k)), eq(p, app(SInt, "*", intLit(k), a))))
+	}
+	c.assume(and(hs...))
+	return p
 }
